@@ -13,9 +13,27 @@ PAIRS=(
   "server/auth/verif_export_overlay.go=serverauth_export.go"
   "yggdrasil/user/verif_export_overlay.go=user_export.go"
 )
+# server/keepalive.go: the exported API has no handle on time (two unexported constants). A copy of the file as it
+# is in $REPO, with nothing but `const` -> `var` on those two declarations, replaces it for the build; the shim
+# server_keepalive_export.go sets the variables. If the declarations are not found the file is left alone.
+OVJ="${OVERLAY_OUT:-$ROOT/out/overlay.json}"
+KACOPY="${OVJ%.json}.keepalive.go"
+KASHIM=server_keepalive_export_const.go
+KAREPL=""
+if [ -f "$REPO/server/keepalive.go" ]; then
+  sed -E 's/^const (keepAliveInterval|keepAliveWaitInterval) = /var \1 = /' "$REPO/server/keepalive.go" > "$KACOPY"
+  if [ "$(grep -cE '^var (keepAliveInterval|keepAliveWaitInterval) = ' "$KACOPY")" = 2 ]; then
+    KASHIM=server_keepalive_export.go
+    KAREPL="$KACOPY"
+  else
+    rm -f "$KACOPY"
+  fi
+  PAIRS+=("server/verif_keepalive_overlay.go=$KASHIM")
+fi
 {
   echo '{"Replace":{'
   sep=""
+  if [ -n "$KAREPL" ]; then printf ' "%s": "%s"' "$REPO/server/keepalive.go" "$KAREPL"; sep=$',\n'; fi
   for p in "${PAIRS[@]}"; do
     dst=${p%%=*}; src=${p#*=}
     [ -f "$HERE/$src" ] || { echo "overlay source $HERE/$src missing" >&2; exit 2; }
